@@ -67,7 +67,7 @@ def rand_arg(rng, depth=3, bad_at=None, level=0):
     if bad_at is not None and level == bad_at:
         if rng.random() < 0.2:
             return {"k": "inst", "has": None}  # same class as the valid "inst" values, but without any protocol method
-        return {"k": "bad", "t": rng.choice(["object", "dict", "bytes", "set", "range", "complex", "type", "fraction", "decimal", "bytearray", "memoryview", "frozenset", "function", "exception", "module", "badrepr", "badrepr", "tagfunction", "boundmethod", "strclass", "answers_everything", "no_rich_repr"])}
+        return {"k": "bad", "t": rng.choice(["object", "dict", "bytes", "set", "range", "complex", "type", "fraction", "decimal", "bytearray", "memoryview", "frozenset", "function", "exception", "module", "badrepr", "badrepr", "tagfunction", "boundmethod", "strclass", "answers_everything", "no_rich_repr", "generator", "generator", "iterator", "map", "dictkeys", "dictitems", "enumerate"])}
     r = rng.random()
     if bad_at is not None or (depth > 0 and r < 0.3):
         n = rng.randint(0, 4)
